@@ -1,6 +1,7 @@
 """Tie (T) for C04: a fail-closed translator  Python `ast` -> Gallina  for the helpers of the divide-and-conquer
-non-dominated sort in deap/tools/emo.py (isDominated, median, splitA, splitB, sweepA, sortNDHelperB, sortNDHelperA; sweepB and
-sortLogNondominated are outside the grammar and stay tied by the correspondence).
+non-dominated sort in deap/tools/emo.py and the sort itself (isDominated, median, splitA, splitB, sweepA, sortNDHelperB,
+sortNDHelperA, sortLogNondominated; sweepB -- a `while` over an iterator -- is outside the grammar and stays tied by the
+correspondence).
 
 The output coq/Gen/C04_gen.v is regenerated from the CURRENT source text on every run and never committed.  The regenerated
 definitions use the vocabulary of coq/Model/C04_GenRt.v and the Python primitives of coq/Model/C04_LogSort.v; they are
@@ -15,6 +16,8 @@ Typed subset (types are inferred from the signature table below):
   H   half-integer, carried DOUBLED (the value of `(a + b) / 2.0`): comparing  x ? h  becomes  2*x ? h
   B   bool          T  tuple of numbers (wvalues, or a slice of one)       L(t)  list        F  dict fitness -> rank
   K   a key function tuple -> number (operator.itemgetter(i), or the `key` parameter)      P(..) Python tuple of values
+  I   an individual (identity, weighted values): only `x.fitness.wvalues` is read       G  defaultdict(list) fitness -> individuals
+  R   the result of sortLogNondominated: a list of fronts, or one flat front (first_front_only)
 Statements: assignment (names, tuple of names, d[k] = v on the rank dict), augmented assignment, `x.append(e)`,
 `x.insert(i, e)`, `del x[i]`, `if/elif/else`, `for` over a list / slice / zip / enumerate (state = the variables the body
 assigns; `break`, `continue`, `return` inside), `return`, `pass`, calls of the other translated functions (a procedure that
@@ -22,7 +25,10 @@ updates the rank dict in place returns the new dict; recursion is given explicit
 Expressions: names, integer constants, True/False, + - * // % unary -, `/ 2.0` (-> H), comparisons (chains), and/or/not,
 conditional expressions, subscripts and the slices [:e] [s:], len abs min max (two numbers; a list with key=), sorted(key=),
 map, frozenset (only under len), zip, enumerate, bisect.bisect_right, itemgetter, math.isinf (constant False: the model's
-numbers are exact, float overflow is outside the model), tuples, list displays.
+numbers are exact, float overflow is outside the model), tuples, list displays, `[e for _ in range(n)]` with e constant,
+defaultdict(list), d[k].append(x), d.keys(), d.values(), dict.fromkeys, l.sort(reverse=True), l[i].extend(xs).
+IndexError / ValueError are not modelled as exceptions: like in the hand model, a subscript out of range yields a default
+value (0, the empty tuple / list); the equivalence lemmas are stated where that cannot happen or does not matter.
 """
 import ast
 import os
@@ -43,7 +49,7 @@ def refuse(node, why):
 
 
 # ---- types ------------------------------------------------------------------------------------------------
-Z, H, B, T, F, K, U = "Z", "H", "B", "T", "F", "K", "U"
+Z, H, B, T, F, K, U, I, G, R = "Z", "H", "B", "T", "F", "K", "U", "I", "G", "R"
 
 
 def L(t=None):
@@ -109,6 +115,12 @@ def coqtype(t, node="type"):
         return "fmap"
     if t == K:
         return "(wvals -> Z)"
+    if t == I:
+        return "ind"
+    if t == G:
+        return "(kmap (list ind))"
+    if t == R:
+        return "log_result"
     if is_list(t):
         if elt(t) is None:
             refuse(node, "list of unknown element type")
@@ -125,6 +137,8 @@ def default(t, node):
         return "[]"
     if t == B:
         return "false"
+    if t == I:
+        return "(O, [])"
     if is_prod(t):
         return "(%s)" % ", ".join(default(x, node) for x in t[1])
     refuse(node, "no default value for %s" % show(t))
@@ -132,8 +146,11 @@ def default(t, node):
 
 # ---- signature table (the trusted part next to the grammar) ---------------------------------------------
 # name, parameters, result type, in-out parameters (a procedure returns their final values), fuelled, hand model
-def _sig(name, params, ret, inout, fuel, model, defaults=None):
-    return dict(name=name, params=params, ret=ret, inout=inout, fuel=fuel, model=model, defaults=defaults or {})
+def _sig(name, params, ret, inout, fuel, model, defaults=None, callfuel=None):
+    """fuel: True = the function is recursive and gets an explicit fuel parameter (result: option); "opt" = not recursive, but
+    calls a fuelled procedure (result: option, no fuel parameter); callfuel: the fuel a NON-fuelled caller passes, as a Coq
+    text over {0}, {1}, .. = the call's arguments (the model's choice, proved sufficient by C04_log_ranks_total)"""
+    return dict(name=name, params=params, ret=ret, inout=inout, fuel=fuel, model=model, defaults=defaults or {}, callfuel=callfuel)
 
 
 FUNCS = [
@@ -147,12 +164,14 @@ FUNCS = [
     _sig("sortNDHelperB", [("best", L(T)), ("worst", L(T)), ("obj", Z), ("front", F)], U, ["front"], True,
          "helperB fuel v_best v_worst v_obj v_front"),
     _sig("sortNDHelperA", [("fitnesses", L(T)), ("obj", Z), ("front", F)], U, ["front"], True,
-         "helperA fuel v_fitnesses v_obj v_front"),
+         "helperA fuel v_fitnesses v_obj v_front", callfuel="(log_fuel (length {0}) {1})"),
+    _sig("sortLogNondominated", [("individuals", L(I)), ("k", Z), ("first_front_only", B)], R, [], "opt",
+         "sort_log v_individuals v_k v_first_front_only", {"first_front_only": False}),
 ]
 SIG = {f["name"]: f for f in FUNCS}
 # names whose module-level binding must be exactly this
 EXPECTED = {"bisect": ("import", None, "bisect"), "math": ("import", None, "math"),
-            "itemgetter": ("from", "operator", "itemgetter")}
+            "itemgetter": ("from", "operator", "itemgetter"), "defaultdict": ("from", "collections", "defaultdict")}
 BUILTINS = ("len", "abs", "min", "max", "sorted", "map", "frozenset", "zip", "enumerate", "range", "list", "iter", "next",
             "float", "int", "bool", "tuple", "set", "dict", "any", "all", "sum", "reversed", "True", "False", "None")
 
@@ -209,6 +228,8 @@ def assigned(stmts):
             c = s.value
             if isinstance(c.func, ast.Attribute) and isinstance(c.func.value, ast.Name):
                 add(c.func.value.id)
+            elif isinstance(c.func, ast.Attribute) and isinstance(c.func.value, ast.Subscript) and isinstance(c.func.value.value, ast.Name):
+                add(c.func.value.value.id)
             elif isinstance(c.func, ast.Name) and c.func.id in SIG:
                 sg = SIG[c.func.id]
                 for (p, _), a in zip(sg["params"], c.args):
@@ -268,6 +289,7 @@ class FnTr(object):
         self.env = {}
         self.aliased = set()
         self.nils = []
+        self.tainted = set()     # defaultdicts that were read by subscript (a read may have inserted a key)
 
     # -- expressions ---------------------------------------------------------------------------------------
     def var(self, node, name):
@@ -355,6 +377,26 @@ class FnTr(object):
             return "[%s]" % "; ".join(x for x, _ in xs), L(ty)
         if isinstance(n, ast.Call):
             return self.call(n)
+        if isinstance(n, ast.ListComp):
+            # [e for x in range(n)] with e not mentioning x: n copies of e
+            if len(n.generators) != 1:
+                refuse(n, "comprehension with several generators")
+            g = n.generators[0]
+            if g.ifs or g.is_async or not isinstance(g.target, ast.Name):
+                refuse(n, "comprehension with a filter / a structured target")
+            it = g.iter
+            if not (isinstance(it, ast.Call) and isinstance(it.func, ast.Name) and it.func.id == "range" and "range" not in self.env
+                    and len(it.args) == 1 and not it.keywords):
+                refuse(n, "comprehension over something else than range(n)")
+            if any(isinstance(t, ast.Name) and t.id == g.target.id for t in ast.walk(n.elt)):
+                refuse(n, "comprehension element depends on the loop variable")
+            e, te = self.expr(n.elt)
+            return "(repeat %s (Z.to_nat %s))" % (e, self.expr_of(it.args[0], Z)), L(te)
+        if isinstance(n, ast.Attribute) and n.attr == "wvalues" and isinstance(n.value, ast.Attribute) and n.value.attr == "fitness":
+            x, tx = self.expr(n.value.value)
+            if tx != I:
+                refuse(n, ".fitness.wvalues of %s" % show(tx))
+            return "(iw %s)" % x, T
         refuse(n, "expression outside the grammar")
 
     def binop(self, n):
@@ -422,6 +464,12 @@ class FnTr(object):
             return "(item %s %s)" % (v, self.expr_of(s, Z)), Z
         if tv == F:
             return "(fget %s %s)" % (v, self.expr_of(s, T)), Z
+        if tv == G:
+            if isinstance(n.value, ast.Name):
+                self.tainted.add(n.value.id)
+            else:
+                refuse(n, "subscript of an anonymous defaultdict")
+            return "(kget %s %s [])" % (v, self.expr_of(s, T)), L(I)
         if is_list(tv):
             if elt(tv) is None:
                 refuse(n, "subscript of a list of unknown element type")
@@ -461,6 +509,19 @@ class FnTr(object):
                 if (mod, at) == ("math", "isinf") and len(n.args) == 1 and not kw:
                     self.num(n.args[0])
                     return "false", B       # exact numbers: no infinities in the model (float overflow is outside it)
+            if isinstance(f.value, ast.Name) and f.value.id == "dict" and "dict" not in self.env and f.attr == "fromkeys" \
+                    and len(n.args) == 2 and not kw:
+                a, ta = self.expr(n.args[0])
+                unify(ta, L(T), n)
+                return "(fromkeys %s %s)" % (a, self.expr_of(n.args[1], Z)), F
+            if isinstance(f.value, ast.Name) and f.value.id in self.env and not n.args and not kw:
+                x, tx = self.var(f.value, f.value.id)
+                if f.attr == "keys" and tx == G:
+                    if f.value.id in self.tainted:
+                        refuse(n, "keys of a defaultdict after it was read by subscript")
+                    return "(kkeys %s)" % x, L(T)
+                if f.attr == "values" and tx == F:
+                    return "(map snd %s)" % x, L(Z)
             refuse(n, "method / module function outside the grammar")
         if not isinstance(f, ast.Name):
             refuse(n, "called object")
@@ -471,6 +532,10 @@ class FnTr(object):
             refuse(n, "call of the local %s" % name)
         if name == "itemgetter":
             return self.keyfun(n), K
+        if name == "defaultdict":
+            if len(n.args) == 1 and not kw and isinstance(n.args[0], ast.Name) and n.args[0].id == "list" and "list" not in self.env:
+                return "(@nil (wvals * list ind))", G
+            refuse(n, "defaultdict of something else than list")
         if name == "len" and len(n.args) == 1 and not kw:
             a = n.args[0]
             if isinstance(a, ast.Call) and isinstance(a.func, ast.Name) and a.func.id == "frozenset" and "frozenset" not in self.env \
@@ -498,7 +563,7 @@ class FnTr(object):
             if len(n.args) == 1 and not kw:
                 x, tx = self.expr(n.args[0])
                 unify(tx, L(Z), n)
-                return "(%s %s)" % ("zmax_list0" if name == "max" else "zmin_list", x), Z
+                return ("(zmax_list %s 0)" % x if name == "max" else "(zmin_list %s)" % x), Z
             refuse(n, "%s with these arguments" % name)
         if name == "sorted" and len(n.args) == 1 and set(kw) == {"key"}:
             x, tx = self.expr(n.args[0])
@@ -564,6 +629,17 @@ class FnTr(object):
                 return ctx.ret(self.inout_tuple(s))
             if s.value is None:
                 refuse(s, "return without a value")
+            if self.sig["ret"] == R:
+                # a list of fronts, or (first_front_only) one flat front; the empty display is the empty list of fronts
+                t, ty = self.expr(s.value)
+                if isinstance(s.value, ast.List) and not s.value.elts:
+                    unify(ty, L(L(I)), s)
+                if is_list(ty) and is_list(elt(ty)):
+                    unify(ty, L(L(I)), s)
+                    return ctx.ret("(LFronts %s)" % t)
+                if is_list(ty) and elt(ty) == I:
+                    return ctx.ret("(LFlat %s)" % t)
+                refuse(s, "returned value of type %s" % show(ty))
             return ctx.ret(self.expr_of(s.value, self.sig["ret"]))
         if isinstance(s, ast.Break):
             if ctx.brk is None:
@@ -656,8 +732,33 @@ class FnTr(object):
 
     def expr_stmt(self, s, nxt):
         c = s.value
-        if not isinstance(c, ast.Call) or c.keywords:
+        if not isinstance(c, ast.Call):
             refuse(s, "expression statement")
+        if isinstance(c.func, ast.Attribute) and isinstance(c.func.value, ast.Name) and c.func.attr == "sort":
+            nm = c.func.value.id
+            self.mutable(c, nm)
+            kws = {k.arg: k.value for k in c.keywords}
+            if c.args or set(kws) != {"reverse"} or not (isinstance(kws["reverse"], ast.Constant) and kws["reverse"].value is True):
+                refuse(s, "sort with other arguments than reverse=True")
+            unify(self.env[nm], L(T), s)
+            return "let %s := sort_desc %s in\n%s" % (cn(nm), cn(nm), nxt())
+        if c.keywords:
+            refuse(s, "expression statement")
+        if isinstance(c.func, ast.Attribute) and isinstance(c.func.value, ast.Subscript) and isinstance(c.func.value.value, ast.Name) \
+                and not isinstance(c.func.value.slice, ast.Slice) and len(c.args) == 1:
+            nm, at, ix = c.func.value.value.id, c.func.attr, c.func.value.slice
+            self.mutable(c, nm)
+            ty = self.env[nm]
+            if ty == G and at == "append":       # d[k].append(x) on a defaultdict(list)
+                kx = self.expr_of(ix, T)
+                x = self.expr_of(c.args[0], I)
+                return "let %s := kset %s %s (kget %s %s [] ++ [%s]) in\n%s" % (cn(nm), cn(nm), kx, cn(nm), kx, x, nxt())
+            if is_list(ty) and is_list(elt(ty)) and at == "extend":       # l[i].extend(xs) on a list of lists
+                i = self.expr_of(ix, Z)
+                x, tx = self.expr(c.args[0])
+                unify(elt(ty), tx, s)
+                return "let %s := py_extend_at %s %s %s in\n%s" % (cn(nm), cn(nm), i, x, nxt())
+            refuse(s, "method %s on a subscript of %s" % (at, show(ty)))
         if isinstance(c.func, ast.Attribute) and isinstance(c.func.value, ast.Name):
             nm, at = c.func.value.id, c.func.attr
             self.mutable(c, nm)
@@ -692,7 +793,13 @@ class FnTr(object):
                     refuse(s, "call of the recursive procedure %s from a function without fuel" % sg["name"])
                 if self.loop_depth:
                     refuse(s, "call of the recursive procedure %s inside a loop" % sg["name"])
-                return "obind %s (fun %s =>\n%s)" % (self.call_sig(c, sg, "fu"), pat(outs), nxt())
+                if self.sig["fuel"] == "opt":
+                    if not sg["callfuel"]:
+                        refuse(s, "no fuel is tabulated for a call of %s from a non-recursive function" % sg["name"])
+                    fuel = sg["callfuel"].format(*[self.expr(a)[0] for a in c.args])
+                else:
+                    fuel = "fu"
+                return "obind %s (fun %s =>\n%s)" % (self.call_sig(c, sg, fuel), pat(outs), nxt())
             return "let %s := %s in\n%s" % (pat(outs), self.call_sig(c, sg), nxt())
         refuse(s, "call statement outside the grammar")
 
@@ -818,7 +925,7 @@ class FnTr(object):
 # ---- module level ----------------------------------------------------------------------------------------
 FORBIDDEN = (ast.Global, ast.Nonlocal, ast.Try, ast.With, ast.Yield, ast.YieldFrom, ast.Await, ast.ClassDef, ast.Import,
              ast.ImportFrom, ast.NamedExpr, ast.FunctionDef, ast.AsyncFunctionDef, ast.AsyncFor, ast.AsyncWith,
-             ast.Assert, ast.SetComp, ast.DictComp, ast.GeneratorExp, ast.ListComp, ast.JoinedStr, ast.Dict, ast.Set,
+             ast.Assert, ast.SetComp, ast.DictComp, ast.GeneratorExp, ast.JoinedStr, ast.Dict, ast.Set,
              ast.Lambda, ast.While, ast.Raise, ast.Starred)
 
 
@@ -871,7 +978,11 @@ def check_function(fn, sg):
     if names != [p for p, _ in sg["params"]] or any(x.annotation is not None for x in a.args):
         refuse(fn, "parameters %r, expected %r" % (names, [p for p, _ in sg["params"]]))
     got = dict(zip(names[len(names) - len(a.defaults):], a.defaults))
-    if set(got) != set(sg["defaults"]) or any(not (isinstance(got[k], ast.Name) and got[k].id == v) for k, v in sg["defaults"].items()):
+    def same_default(g, v):
+        if isinstance(v, str):
+            return isinstance(g, ast.Name) and g.id == v
+        return isinstance(g, ast.Constant) and type(g.value) is type(v) and g.value == v
+    if set(got) != set(sg["defaults"]) or any(not same_default(got[k], v) for k, v in sg["defaults"].items()):
         refuse(fn, "default values of the parameters")
     for n in ast.walk(fn):
         if n is not fn and isinstance(n, FORBIDDEN):
@@ -908,10 +1019,15 @@ def translate_function(fn, sg):
             refuse(fn, "control reaches the end of the function without return")
         return top.ret(tr.inout_tuple(fn))
     top = Ctx(ret=(lambda t: "Some %s" % t) if sg["fuel"] else (lambda t: t))
+    if sg["fuel"] == "opt":
+        body = tr.block(list(fn.body), end, top)
+        for tok, ty, node in tr.nils:
+            body = body.replace(tok, "(@nil %s)" % coqtype(elt(ty), node) if elt(ty) is not None else refuse(node, "empty list of unknown element type"))
+        return "Definition gen_%s %s : %s :=\n%s.\n" % (sg["name"], signature(sg), rettype(sg), indent(body, 2))
     body = tr.block(list(fn.body), end, top)
     for tok, ty, node in tr.nils:
         body = body.replace(tok, "(@nil %s)" % coqtype(elt(ty), node) if elt(ty) is not None else refuse(node, "empty list of unknown element type"))
-    if sg["fuel"]:
+    if sg["fuel"] is True:
         return "Fixpoint gen_%s (fuel : nat) %s : %s :=\n  match fuel with\n  | O => None\n  | S fu =>\n%s\n  end.\n" % (
             sg["name"], signature(sg), rettype(sg), indent(body, 4))
     return "Definition gen_%s %s : %s :=\n%s.\n" % (sg["name"], signature(sg), rettype(sg), indent(body, 2))
@@ -919,7 +1035,7 @@ def translate_function(fn, sg):
 
 def placeholder(sg, why):
     why = str(why).replace("*)", "* )").replace("(*", "( *")
-    if sg["fuel"]:
+    if sg["fuel"] is True:
         return "(* REFUSED %s: %s -- placeholder: the hand model, tied by the correspondence only *)\n" \
                "Definition gen_%s (fuel : nat) %s : %s :=\n  %s.\n" % (sg["name"], why, sg["name"], signature(sg), rettype(sg), sg["model"])
     return "(* REFUSED %s: %s -- placeholder: the hand model, tied by the correspondence only *)\n" \
